@@ -3,12 +3,16 @@
 package main
 
 import (
+	"bufio"
 	"fmt"
 	"math/big"
 	"os"
+	"os/exec"
 	"path/filepath"
+	"runtime"
 	"strconv"
 	"strings"
+	"syscall"
 	"time"
 
 	"rare/pkg/color"
@@ -41,10 +45,14 @@ func c08Run(f []string) string {
 		path := string(UnHex(f[4]))
 		if strings.HasPrefix(path, c08LoadDir+string(os.PathSeparator)) {
 			os.MkdirAll(c08LoadDir, 0o755)
-			if f[5] == "x" {
-				os.Remove(path)
-			} else if err := os.WriteFile(path, UnHex(f[5]), 0o644); err != nil {
-				return "bad-setup " + err.Error()
+			// the file name is derived from the content (c08LoadFile), so concurrent runs never disagree
+			// about what a name holds; the absent file is never created
+			if f[5] != "x" {
+				if old, err := os.ReadFile(path); err != nil || string(old) != string(UnHex(f[5])) {
+					if err := os.WriteFile(path, UnHex(f[5]), 0o644); err != nil {
+						return "bad-setup " + err.Error()
+					}
+				}
 			}
 		}
 		a, _ := exprRun([]string{"expr", f[6], f[7], f[8], f[9]})
@@ -282,6 +290,15 @@ func c08Gen(r *Rand, tier string) []string {
 			add(r.Bool(), "{"+fn+" "+c08Arg(r, a, &el, false)+" "+c08Arg(r, Pick(r, D), &el, false)+" "+c08Arg(r, Pick(r, D), &el, false)+"}", el, nil)
 		}
 	}
+	// the constant divisor of bucket / bucketrange
+	for _, fn := range []string{"bucket", "bucketrange"} {
+		for _, size := range []string{"-9223372036854775808", "-1", "0", "1", "2", "9223372036854775807", "x"} {
+			for _, v := range []string{"-9223372036854775808", "-1", "0", "7", "9223372036854775807"} {
+				var el []string
+				add(r.Bool(), "{"+fn+" "+c08Arg(r, v, &el, false)+" "+size+"}", el, nil)
+			}
+		}
+	}
 	// precision caps
 	for _, fn := range []string{"round", "percent", "bytesize", "bytesizesi", "downscale"} {
 		for _, p := range []string{"-9223372036854775808", "-1", "0", "1", "1023", "1024", "1025", "2147483647", "2147483648", "4294967296", "9223372036854775807"} {
@@ -316,7 +333,6 @@ func c08Gen(r *Rand, tier string) []string {
 	// loading enabled / disabled, the file present / absent
 	{
 		os.MkdirAll(c08LoadDir, 0o755)
-		file := filepath.Join(c08LoadDir, "table.txt")
 		colors := []string{"red", "RED", "Blue", "black", "white", "magenta", "cyan", "green", "yellow", "", "pink", "blac\u212a", "wh\u0130te", "r\u00e9d", "red\xff", " red"}
 		lens := []string{"0", "1", "7", "40", "-1", "-9223372036854775808", "65536", "65537", "9223372036854775807", "x", ""}
 		vals := []string{"0", "1", "5", "10", "11", "-3", "9223372036854775807", "-9223372036854775808", "x", "", "3.5"}
@@ -330,6 +346,8 @@ func c08Gen(r *Rand, tier string) []string {
 		for i := 0; i < nw; i++ {
 			var el []string
 			var t string
+			content := Pick(r, contents)
+			file := c08LoadFile(content)
 			switch r.Intn(7) {
 			case 0, 1:
 				t = "{color " + c08Arg(r, Pick(r, colors), &el, r.Chance(3, 4)) + " " + c08Arg(r, Pick(r, []string{"txt", "", "a\x1b[0m", "\x1b[0m", "é"}), &el, false) + "}"
@@ -373,7 +391,7 @@ func c08Gen(r *Rand, tier string) []string {
 			default:
 				t = "{color " + quoteArg(Pick(r, colors)) + " {bar " + c08Arg(r, Pick(r, vals), &el, false) + " 10 " + Pick(r, []string{"5", "12"}) + "}}"
 			}
-			out = append(out, fmt.Sprintf("exprw %d %d %d %s %s %d %s %s %s", r.Intn(2), r.Intn(2), map[bool]int{false: 0, true: 1}[r.Chance(1, 6)], HexS(file), c08Content(Pick(r, contents)),
+			out = append(out, fmt.Sprintf("exprw %d %d %d %s %s %d %s %s %s", r.Intn(2), r.Intn(2), map[bool]int{false: 0, true: 1}[r.Chance(1, 6)], HexS(file), c08Content(content),
 				r.Intn(2), HexS(normTemplate(t)), HexListS(el), "."))
 		}
 	}
@@ -394,7 +412,7 @@ func c08Gen(r *Rand, tier string) []string {
 	// each: keep a few per run (all of them would take the quick tier beyond its budget).
 	infCap := 3
 	if tier == "thorough" {
-		infCap = 24
+		infCap = 8
 	}
 	return c08CapInf(out, infCap)
 }
@@ -411,25 +429,40 @@ func c08SafeGen(gen func(r *Rand, tier string) []string, r *Rand) (cases []strin
 	return gen(r, "quick")
 }
 
-// c08LongLoop: does the case (or one of its {@for …} / {@range …} sub-templates, evaluated on its own
-// against the same context) run into MAX_ITERATIONS?  Deterministic, so the generated case set is too.
-func c08LongLoop(p *Prop, f []string, t string) bool {
-	if !strings.Contains(t, "@for") && !strings.Contains(t, "@range") {
-		return false
+// ---- loops that run to MAX_ITERATIONS, and loops whose value grows while they do
+//
+// A {@for} / {@reduce} whose value grows every round does not return in practice: a million rounds of
+// a growing string are ~10^11 bytes (the recorded known finding "resource exhaustion").  Evaluated inside
+// the harness process such a case cannot be stopped (the watchdog answers `hang`, the goroutine goes on
+// allocating) and takes the whole run down, so every candidate is first probed in a CHILD process
+// (`corr run C08` with an address-space limit and a short watchdog) that can be killed:
+//   * child died / `hang` with a large heap  -> the known resource-exhaustion class: dropped from the set
+//     (counted in stats as dropped.resource);
+//   * `hang` with a small heap (a loop that spins without allocating: a genuine "fails to return")
+//     -> kept, so that the in-process run reports it;
+//   * answers containing `<INF>` (the case or one of its {@for}/{@range} sub-templates on its own)
+//     -> kept for the first `max` only: each costs the Lean model a million interpreted rounds.
+
+const c08InfHex = "3c494e463e"
+
+var c08Dropped int
+
+// c08Template: the template text of an expression case (for `funcs`: definitions + template).
+func c08Template(f []string) (t, el, ks string) {
+	switch {
+	case f[0] == "expr" && len(f) == 5:
+		return string(UnHex(f[2])), f[3], f[4]
+	case f[0] == "exprw" && len(f) == 10:
+		return string(UnHex(f[7])), f[8], f[9]
+	case f[0] == "funcs" && len(f) == 6:
+		return string(UnHex(f[2])) + string(UnHex(f[3])), f[4], f[5]
 	}
-	const inf = "3c494e463e"
-	if strings.Contains(runSafe(p, f), inf) {
-		return true
-	}
-	el, ks := ".", "."
-	switch f[0] {
-	case "expr":
-		el, ks = f[3], f[4]
-	case "exprw":
-		el, ks = f[8], f[9]
-	case "funcs":
-		el, ks = f[4], f[5]
-	}
+	return "", ".", "."
+}
+
+// c08SubLoops: the {@for …} / {@range …} sub-templates of t as `expr` cases over the same context.
+func c08SubLoops(t, el, ks string) []string {
+	var out []string
 	for _, head := range []string{"{@for", "{@range"} {
 		for from := 0; ; {
 			i := strings.Index(t[from:], head)
@@ -454,47 +487,143 @@ func c08LongLoop(p *Prop, f []string, t string) bool {
 			}
 			if j < len(t) {
 				sub := strings.ReplaceAll(t[i:j+1], "\\\"", "\"")
-				if strings.Contains(runSafe(p, []string{"expr", "0", HexS(sub), el, ks}), inf) {
-					return true
-				}
+				out = append(out, fmt.Sprintf("expr 0 %s %s %s", HexS(normTemplate(sub)), el, ks))
 			}
 			from = i + 1
 		}
 	}
-	return false
+	return out
 }
 
-// c08CapInf drops the cases beyond the first `max` whose real evaluation runs into MAX_ITERATIONS.
+// c08Probe evaluates case lines in child processes; a child is restarted after every line it does not
+// survive (answer "died") or answers `hang…` to.
+func c08Probe(lines []string) []string {
+	ans := make([]string, len(lines))
+	for next := 0; next < len(lines); {
+		cmd := exec.Command(os.Args[0], "run", "C08")
+		cmd.Env = append(os.Environ(), "VERIF_C08_CHILD=1")
+		stdin, err1 := cmd.StdinPipe()
+		stdout, err2 := cmd.StdoutPipe()
+		if err1 != nil || err2 != nil || cmd.Start() != nil {
+			for ; next < len(lines); next++ {
+				ans[next] = "probe-failed"
+			}
+			break
+		}
+		go func(from int) {
+			w := bufio.NewWriter(stdin)
+			for _, l := range lines[from:] {
+				fmt.Fprintln(w, "C08 "+l)
+			}
+			w.Flush()
+			stdin.Close()
+		}(next)
+		sc := bufio.NewScanner(stdout)
+		sc.Buffer(make([]byte, 1<<20), 1<<28)
+		restart := false
+		for next < len(lines) && sc.Scan() {
+			ans[next] = sc.Text()
+			next++
+			if strings.HasPrefix(ans[next-1], "hang") {
+				restart = true
+				break
+			}
+		}
+		if !restart && next < len(lines) { // the child died on lines[next]
+			ans[next] = "died"
+			next++
+		}
+		cmd.Process.Kill()
+		cmd.Wait()
+	}
+	return ans
+}
+
+// c08CapInf: see the comment above.
 func c08CapInf(cases []string, max int) []string {
-	p := &Prop{Run: c08Run, Timeout: 3 * time.Second}
+	type cand struct{ first, n int }
+	var lines []string
+	cands := map[int]cand{}
+	for k, c := range cases {
+		f := strings.Fields(c)
+		if len(f) < 3 {
+			continue
+		}
+		t, el, ks := c08Template(f)
+		if !strings.Contains(t, "@for") && !strings.Contains(t, "@range") && !strings.Contains(t, "@reduce") {
+			continue
+		}
+		subs := c08SubLoops(t, el, ks)
+		cands[k] = cand{len(lines), 1 + len(subs)}
+		lines = append(lines, c)
+		lines = append(lines, subs...)
+	}
+	ans := c08Probe(lines)
 	seen := 0
 	out := cases[:0:0]
-	for _, c := range cases {
-		f := strings.Fields(c)
-		if len(f) >= 3 && (f[0] == "expr" || f[0] == "exprw" || f[0] == "funcs") {
-			t := ""
-			switch f[0] {
-			case "expr":
-				t = string(UnHex(f[2]))
-			case "exprw":
-				if len(f) == 10 {
-					t = string(UnHex(f[7]))
-				}
-			case "funcs":
-				if len(f) == 6 {
-					t = string(UnHex(f[2])) + string(UnHex(f[3]))
-				}
+	for k, c := range cases {
+		cd, is := cands[k]
+		if !is {
+			out = append(out, c)
+			continue
+		}
+		own := ans[cd.first]
+		if own == "died" || own == "hang-grow" || own == "probe-failed" {
+			c08Dropped++
+			continue
+		}
+		long := false
+		for _, a := range ans[cd.first : cd.first+cd.n] {
+			if strings.Contains(a, c08InfHex) {
+				long = true
 			}
-			if c08LongLoop(p, f, t) {
-				seen++
-				if seen > max {
-					continue
-				}
+		}
+		if long {
+			seen++
+			if seen > max {
+				continue
 			}
 		}
 		out = append(out, c)
 	}
 	return out
+}
+
+// c08ChildRun is c08Run inside a probe child: an inner watchdog shorter than the harness one classifies a
+// case that does not return by the heap it has built up.
+func c08ChildRun(f []string) string {
+	ch := make(chan string, 1)
+	go func() {
+		defer func() {
+			if e := recover(); e != nil {
+				ch <- "panic " + strings.ReplaceAll(fmt.Sprint(e), "\n", " ")
+			}
+		}()
+		ch <- c08Run(f)
+	}()
+	select {
+	case a := <-ch:
+		return a
+	case <-time.After(1500 * time.Millisecond):
+		var ms runtime.MemStats
+		runtime.ReadMemStats(&ms)
+		if ms.HeapAlloc > 200<<20 {
+			return "hang-grow"
+		}
+		return "hang-spin"
+	}
+}
+
+// c08LoadFile: the path of the one file of an `exprw` world, named after its content.
+func c08LoadFile(content string) string {
+	if content == "x" {
+		return filepath.Join(c08LoadDir, "absent.txt")
+	}
+	h := uint32(2166136261)
+	for i := 0; i < len(content); i++ {
+		h = (h ^ uint32(content[i])) * 16777619
+	}
+	return filepath.Join(c08LoadDir, fmt.Sprintf("t-%08x.txt", h))
 }
 
 func c08Content(c string) string {
@@ -520,6 +649,9 @@ func quoteArg(v string) string {
 
 func c08Stats(cases []string) map[string]int {
 	st := map[string]int{}
+	if c08Dropped > 0 {
+		st["dropped.resource"] = c08Dropped
+	}
 	for _, c := range cases {
 		f := strings.Fields(c)
 		if len(f) < 3 {
@@ -553,5 +685,12 @@ func c08Stats(cases []string) map[string]int {
 }
 
 func init() {
+	if os.Getenv("VERIF_C08_CHILD") != "" {
+		// a probe child (c08Probe): bounded address space, inner watchdog
+		lim := syscall.Rlimit{Cur: 4 << 30, Max: 4 << 30}
+		syscall.Setrlimit(syscall.RLIMIT_AS, &lim)
+		Register("C08", &Prop{Gen: c08Gen, Run: c08ChildRun, Stats: c08Stats, Timeout: 10 * time.Second})
+		return
+	}
 	Register("C08", &Prop{Gen: c08Gen, Run: c08Run, Stats: c08Stats, Timeout: 10 * time.Second})
 }
